@@ -49,7 +49,7 @@ PROPS = {
     "C17": dict(tu="c17_scalar.cpp", san_scale=1.0 / 64, fuzz_s=0),
     "C18": dict(tu="c18_random.cpp", san_scale=0.1, fuzz_s=0),
     "C19": dict(kind="py", script="py/c19_arrays.py"),
-    "C20": dict(kind="py", script="py/c20_vectorised.py"),
+    "C20": dict(kind="py", script="py/c20_vectorised.py", pool_shim=True),
 }
 
 
@@ -622,6 +622,14 @@ def setup():
         print("ERROR " + str(e)[-500:])
         ok = False
     os.makedirs(os.path.join(VERIF, "evidence"), exist_ok=True)
+    # pre-build the ASan-instrumented imath Python module (used by C19/C20) so that quick checks start fast
+    try:
+        import pydriver
+        info = pydriver.build_pyimath()
+        pydriver.build_poolshim(info)
+    except BuildError as e:
+        print("ERROR PyImath build failed: " + str(e)[-1500:])
+        ok = False
     print("setup " + ("ok" if ok else "FAILED"))
     return 0 if ok else 2
 
